@@ -182,6 +182,7 @@ type Machine struct {
 	lw             *Lowerer
 	lowerFail      int
 	panicDetail    string
+	allocElemSize  int64
 	addrSeq        uint64
 	addrs          map[*Cell]uint64
 	deferOwner     []*frame
